@@ -255,7 +255,8 @@ def run(ctx, arg, rec):
 
 def parts(ctx):
     q = ctx.quick
-    return [Part("cpumix%02d" % i, run, (i, 45 if q else 1800, "cpumix")) for i in range(12)] + [Part("wide%02d" % i, run, (i, 40 if q else 900, "wide")) for i in range(4)] + [Part("corners%02d" % i, run, (i, 40 if q else 900, "corners")) for i in range(2)]
+    return [Part("cpumix%02d" % i, run, (i, 45 if q else 1800, "cpumix")) for i in range(12)] + [Part("wide%02d" % i, run, (i, 40 if q else 900, "wide")) for i in range(4)] + [Part("corners%02d" % i, run, (i, 40 if q else 900, "corners")) for i in range(2)] + [
+        Part("rnn%02d" % i, run, (i, 12 if q else 400, "rnn")) for i in range(1)]
 
 
 def replay(ctx, case):
